@@ -231,3 +231,182 @@ Proof.
   - right. split; [|apply trim_suffix_no; exact H].
     intros r E. assert (T : has_suffix s suf = true) by (apply has_suffix_spec; eauto). congruence.
 Qed.
+
+(* ---------- the split family at the level of the Go functions ---------- *)
+Lemma join_split s sep : sep <> [] -> join (split s sep) sep = s.
+Proof.
+  intros NE. unfold split, gen_split. cbn [Z.eqb]. destruct sep as [|c sep]; [congruence|].
+  apply join_gsplit.
+Qed.
+
+Lemma split_pieces_sep_free s sep : sep <> [] -> Forall (fun p => contains p sep = false) (split s sep).
+Proof.
+  intros NE. unfold split, gen_split. cbn [Z.eqb]. destruct sep as [|c sep]; [congruence|].
+  apply gsplit_pieces_sep_free; [discriminate|]. unfold cuts_of. cbn [Z.ltb Z.compare]. lia.
+Qed.
+
+Lemma split_nonempty s sep : sep <> [] -> split s sep <> [].
+Proof.
+  intros NE. unfold split, gen_split. cbn [Z.eqb]. destruct sep as [|c sep]; [congruence|].
+  apply gsplit_nonempty.
+Qed.
+
+Lemma split_empty_sep s : split s [] = chunks s.
+Proof.
+  unfold split, gen_split. cbn [Z.eqb]. apply explode_k_all.
+  unfold cuts_of. cbn [Z.ltb Z.compare]. pose proof (chunks_length s). lia.
+Qed.
+
+Lemma concat_gen_split s sep n : (n <> 0)%Z -> concat (gen_split s sep (length sep) n) = s.
+Proof.
+  intros Hn. unfold gen_split. destruct (Z.eqb_spec n 0) as [->|_]; [congruence|].
+  destruct sep as [|c sep].
+  - rewrite concat_explode_k. apply runes_concat.
+  - apply concat_gsplit_after.
+Qed.
+
+Lemma concat_split_after s sep : concat (split_after s sep) = s.
+Proof. apply concat_gen_split. discriminate. Qed.
+
+Lemma concat_split_after_n s sep n : (n <> 0)%Z -> concat (split_after_n s sep n) = s.
+Proof. apply concat_gen_split. Qed.
+
+Lemma split_after_n_zero s sep : split_after_n s sep 0 = [].
+Proof. reflexivity. Qed.
+
+Lemma gen_split_length s sep save n : (0 < n)%Z -> length (gen_split s sep save n) <= Z.to_nat n.
+Proof.
+  intros Hn. unfold gen_split. destruct (Z.eqb_spec n 0) as [->|_]; [lia|].
+  assert (Hc : S (cuts_of n s) <= Z.to_nat n).
+  { unfold cuts_of. destruct (Z.ltb_spec n 0); lia. }
+  destruct sep as [|c sep].
+  - pose proof (explode_k_length (cuts_of n s) (chunks s)). lia.
+  - pose proof (gsplit_length (cuts_of n s) (c :: sep) save s). lia.
+Qed.
+
+(* split is the unlimited splitAfterN without the separators; SplitN below is genSplit with save = 0 *)
+Lemma replace_all_join_split s old new : old <> [] -> replace_all s old new = join (split s old) new.
+Proof.
+  intros NE. unfold replace_all, replace, split, gen_split. cbn [Z.eqb orb].
+  destruct old as [|c old]; [congruence|].
+  destruct (seqb (c :: old) new) eqn:E.
+  - apply seqb_eq in E. subst new. cbn [orb]. symmetry. apply join_gsplit.
+  - cbn [orb]. rewrite replace_ne_join. f_equal.
+    apply gsplit_fuel; [discriminate | unfold repl_count; cbn [Z.ltb Z.compare]; lia | unfold cuts_of; cbn [Z.ltb Z.compare]; lia].
+Qed.
+
+Lemma replace_n_join_split_n s old new n : old <> [] -> (0 <= n)%Z ->
+  replace s old new n = join (gen_split s old 0 (n + 1)) new.
+Proof.
+  intros NE Hn. unfold replace, gen_split.
+  destruct (Z.eqb_spec (n + 1) 0) as [Hz|_]; [lia|].
+  destruct old as [|c old]; [congruence|].
+  destruct (Z.eqb_spec n 0) as [->|Hn0].
+  - rewrite orb_true_r.
+    assert (cuts_of (0 + 1) s = 0) as -> by (unfold cuts_of; destruct (Z.ltb_spec (0 + 1) 0); lia).
+    reflexivity.
+  - rewrite orb_false_r. destruct (seqb (c :: old) new) eqn:E.
+    + apply seqb_eq in E. subst new. symmetry. apply join_gsplit.
+    + rewrite replace_ne_join. f_equal. unfold repl_count, cuts_of.
+      destruct (Z.ltb_spec n 0); [lia|]. destruct (Z.ltb_spec (n + 1) 0); [lia|].
+      replace (n + 1 - 1)%Z with n by lia.
+      destruct (Z.le_gt_cases n (Z.of_nat (length s))) as [Hle|Hgt].
+      * rewrite !Z.min_l by lia. reflexivity.
+      * apply gsplit_fuel; [discriminate | lia | lia].
+Qed.
+
+Lemma replace_zero s old new : replace s old new 0 = s.
+Proof. unfold replace. rewrite orb_true_r. reflexivity. Qed.
+
+Lemma replace_same s old n : replace s old old n = s.
+Proof. unfold replace. rewrite seqb_refl. reflexivity. Qed.
+
+Lemma repl_after_all k new : forall cs, length cs <= k ->
+  repl_after k new cs = concat (map (fun c => c ++ new) cs).
+Proof.
+  induction k as [|k IH]; intros cs H.
+  - destruct cs; [reflexivity | cbn [length] in H; lia].
+  - destruct cs as [|c t]; [reflexivity|]. cbn [repl_after map concat]. rewrite <- app_assoc.
+    rewrite IH by (cbn [length] in H; lia). reflexivity.
+Qed.
+
+(* empty old: new goes before the first and after every UTF-8 sequence *)
+Lemma replace_all_empty_old s new : new <> [] ->
+  replace_all s [] new = new ++ concat (map (fun c => c ++ new) (chunks s)).
+Proof.
+  intros NE. unfold replace_all, replace. cbn [Z.eqb orb].
+  destruct (seqb [] new) eqn:E; [apply seqb_eq in E; congruence|]. cbn [orb].
+  unfold repl_count. cbn [Z.ltb Z.compare repl_empty]. f_equal.
+  apply repl_after_all. apply chunks_length.
+Qed.
+
+(* ---------- trim family ---------- *)
+Lemma drop_while_spec {A} (f : A -> bool) (l : list A) :
+  exists l1, l = l1 ++ drop_while f l /\ forallb f l1 = true /\
+             match drop_while f l with [] => True | x :: _ => f x = false end.
+Proof.
+  induction l as [|x l (l1 & E & F & H)].
+  - exists []. repeat split.
+  - cbn [drop_while]. destruct (f x) eqn:Fx.
+    + exists (x :: l1). repeat split; [cbn [app]; f_equal; exact E | cbn [forallb]; rewrite Fx, F; reflexivity | exact H].
+    + exists []. repeat split. exact Fx.
+Qed.
+
+Lemma drop_while_id {A} (f : A -> bool) (l : list A) :
+  match l with [] => True | x :: _ => f x = false end -> drop_while f l = l.
+Proof. destruct l as [|x l]; [reflexivity|]. cbn [drop_while]. intros ->. reflexivity. Qed.
+
+Lemma trim_left_func_spec f s :
+  exists l1 l2, runes s = l1 ++ l2 /\ forallb (fun p => f (fst p)) l1 = true /\
+                trim_left_func f s = concat (map snd l2) /\
+                s = concat (map snd l1) ++ trim_left_func f s /\
+                match l2 with [] => True | p :: _ => f (fst p) = false end.
+Proof.
+  unfold trim_left_func.
+  destruct (drop_while_spec (fun p => f (fst p)) (runes s)) as (l1 & E & F & H).
+  exists l1, (drop_while (fun p => f (fst p)) (runes s)). repeat split; try assumption.
+  apply runes_app_chunks. exact E.
+Qed.
+
+(* the first rune of a left-trimmed string does not satisfy the predicate *)
+Lemma trim_left_func_head f s b t :
+  trim_left_func f s = b :: t -> f (fst (decode (b :: t))) = false.
+Proof.
+  intros E. destruct (trim_left_func_spec f s) as (l1 & l2 & R & _ & T & _ & H).
+  pose proof (runes_suffix _ _ _ R) as RS. rewrite <- T, E in RS.
+  rewrite runes_cons in RS. destruct l2 as [|p l2]; [discriminate|].
+  injection RS as <- _. exact H.
+Qed.
+
+Lemma trim_left_func_idem f s : trim_left_func f (trim_left_func f s) = trim_left_func f s.
+Proof.
+  destruct (trim_left_func_spec f s) as (l1 & l2 & R & _ & T & _ & H).
+  pose proof (runes_suffix _ _ _ R) as RS. rewrite <- T in RS.
+  unfold trim_left_func at 1. rewrite RS, drop_while_id by exact H. symmetry. exact T.
+Qed.
+
+Lemma trim_right_func_spec f s :
+  exists l1 l2, runes s = l1 ++ l2 /\ forallb (fun p => f (fst p)) l2 = true /\
+                trim_right_func f s = concat (map snd l1) /\
+                s = trim_right_func f s ++ concat (map snd l2) /\
+                match rev l1 with [] => True | p :: _ => f (fst p) = false end.
+Proof.
+  unfold trim_right_func.
+  destruct (drop_while_spec (fun p => f (fst p)) (rev (runes s))) as (l2 & E & F & H).
+  set (d := drop_while (fun p => f (fst p)) (rev (runes s))) in *.
+  assert (R : runes s = rev d ++ rev l2).
+  { rewrite <- rev_app_distr, <- E, rev_involutive. reflexivity. }
+  exists (rev d), (rev l2). repeat split.
+  - exact R.
+  - rewrite forallb_forall in *. intros x Hx. apply F. apply in_rev. exact Hx.
+  - apply runes_app_chunks. exact R.
+  - rewrite rev_involutive. exact H.
+Qed.
+
+Lemma trim_right_func_idem f s : trim_right_func f (trim_right_func f s) = trim_right_func f s.
+Proof.
+  destruct (trim_right_func_spec f s) as (l1 & l2 & R & _ & T & _ & H).
+  assert (RS : runes (trim_right_func f s) = l1) by (rewrite T; exact (runes_prefix _ _ _ R)).
+  unfold trim_right_func at 1. rewrite RS, drop_while_id by exact H.
+  rewrite rev_involutive. symmetry. exact T.
+Qed.
